@@ -313,7 +313,7 @@ def type_twin(nodes):
 
 def gen_sweep(rng, proc, kind):
     nvars = rng.choice([1, 1, 2, 2, 3])
-    names = rng.sample(["t", "s", "u", "n"], nvars)
+    names = rng.sample(["t", "s", "u", "n"] + (["expr", "preprocessor_view"] if rng.random() < 0.15 else []), nvars)
     variables = {}
     used = set()
     for v in names:
@@ -483,7 +483,24 @@ class Recorder:
         return lambda *a, **k: None
 
 
-def _strip(o):
+def _strip_scoped():
+    """which sanitiser shape compute_node_semantic_id has (generated fact node_sem_strip_scoped)"""
+    try:
+        return "node_sem_strip_scoped : bool := true" in open(os.path.join(os.path.dirname(os.path.dirname(os.path.dirname(os.path.abspath(__file__)))), "coq", "Gen", "SemanticIdGen.v")).read()
+    except OSError:
+        return False
+
+
+def _strip(o, top=True):
+    if _strip_scoped():
+        if not isinstance(o, dict):
+            return o
+        out = {k: v for k, v in o.items() if k != "preprocessor_view"}
+        pe = out.get("param_expressions")
+        if isinstance(pe, dict):
+            out["param_expressions"] = {n: ({k: v for k, v in e.items() if k != "expr"} if isinstance(e, dict) else e)
+                                        for n, e in pe.items()}
+        return out
     if isinstance(o, dict):
         return {k: _strip(v) for k, v in o.items() if k not in ("expr", "preprocessor_view")}
     if isinstance(o, list):
@@ -890,7 +907,10 @@ def mutations(nodes):
             yield ("nodes.delete", "node %d" % i, copy.deepcopy(nodes[:i] + nodes[i + 1:]))
         yield ("nodes.insert", "before %d" % i, copy.deepcopy(nodes[:i] + [{"processor": "FloatSquareOperation"}] + nodes[i:]))
         yield ("nodes.duplicate", "node %d" % i, copy.deepcopy(nodes[:i + 1] + nodes[i:]))
-        if i + 1 < len(nodes) and not same_meaning(nodes[i], nodes[i + 1]):
+        # (two neighbours that differ only in the probe's context_key are not "a different order of nodes" in an
+        #  identity-bearing respect: swapping them equals exchanging their context keys, which C05 does not list)
+        ident = lambda n: {k: v for k, v in n.items() if k != "context_key"}
+        if i + 1 < len(nodes) and not same_meaning(ident(nodes[i]), ident(nodes[i + 1])):
             m = copy.deepcopy(nodes)
             m[i], m[i + 1] = m[i + 1], m[i]
             yield ("nodes.swap", "nodes %d,%d" % (i, i + 1), m)
